@@ -82,7 +82,7 @@ def boundary_histories(rng, scheds, quick, first_obj):
         for cap in sc["caps"][:4 if quick else 6]:
             B = cap * 32
             for r in ([1, 9, 31] if quick else [1, 2, 7, 8, 9, 16, 24, 31]):
-                for kind in ("AddBits", "AddByte", "AddBit"):
+                for kind in ("AddBits", "AddBitsZero", "AddBitsLow", "AddByte", "AddBit"):
                     obj += 1
                     h = [dict(op="bl", obj=obj, call="New", a=[n0], full=False, hist=obj)]
                     need = B - r - n0
@@ -94,6 +94,9 @@ def boundary_histories(rng, scheds, quick, first_obj):
                     if kind == "AddBits":
                         k = min(31, r + rng.randint(1, 12))
                         h.append(dict(op="bl", obj=obj, call="AddBits", a=[rng.randint(2 ** (k - 1), 2 ** k - 1), k], full=False, hist=obj))
+                    elif kind in ("AddBitsZero", "AddBitsLow"):        # a field of zeros (or with only its last bit set) across the boundary, read back at once
+                        k = min(31, r + rng.randint(1, 12))
+                        h.append(dict(op="bl", obj=obj, call="AddBits", a=[0 if kind == "AddBitsZero" else 1, k], full=False, hist=obj))
                     elif kind == "AddByte":
                         h.append(dict(op="bl", obj=obj, call="AddByte", a=[rng.choice([0xFF, 0x81, 0xA5])], full=False, hist=obj))
                         h.append(dict(op="bl", obj=obj, call="AddByte", a=[0xFF], full=False, hist=obj))
